@@ -186,7 +186,8 @@ pub open spec fn rep_only_identity_writes(a: &RepSocket, b: &RepSocket) -> bool 
 INVALID = ("R2", re.compile(r'ZmqError::InvalidState\(\s*"([^"]*)"\.into\(\)\s*\)'), r'ZmqError::InvalidState("\1")', "*", "pre")
 # R6h rewrites of the guard idiom (declared; the guard names are the ones in the source)
 def guard_rules(names):
-  rules = []
+  # `*self.state.lock() = v;` (store through a temporary guard): one acquisition + one write, whatever function it appears in
+  rules = [("R6h", re.compile(r"\*self\.state\.lock\(\)\s*=\s*([^;]*);"), r"{ self.verif_state_acquire(); self.verif_state_write(\1); }", "*")]
   for g in names:
     rules.append(("R6h", re.compile(r"let (?:mut )?%s = self\.state\.lock\(\);" % g), "self.verif_state_acquire();", "+"))
     rules.append(("R6h", re.compile(r"\*%s\s*=\s*([^;]*);" % g, re.S), r"self.verif_state_write(\1);", "*"))
